@@ -24,6 +24,8 @@ FOREIGN_NAMES = ["notes.txt", "cachefile_keepme", "keepme_cachefile", "sub/cache
                  "backup.tar.part", "movie.mkv.part", "data.tmp", ".hidden", "dl-user.tmp",
                  # symbolic links: a cache entry pre-seeded as a link to the user's own copy of the object; the user's
                  # own links pointing at a cache file, at nothing, at a sub directory
+                 # a user's sub-directory whose NAME has the shape of a cache file name
+                 "cachefile_userdir_cachefile/keep.txt", "cachefile_0123456789abcdef0123456789abcdef_cachefile/x.bin",
                  "linkentry:@k0", "linkentry:@k1", "linkentry:@k2", "link:latest:@k0", "link:current.bin:@k1",
                  "link:dangling:nowhere.bin", "link:cachefile_link_cachefile.lnk:@k0"]
 
@@ -192,6 +194,7 @@ def gen_knobs(rng, prop, profile):
         "http_gzip": rng.random() < 0.4,  # does the simulated http server gzip-encode bodies (Content-Encoding)?
         # skew between the clock the process reads and the clock that stamps the files (a file server)
         "proc_clock_skew_ns": wchoice(rng, [(90, 0), (3, -30 * 10**9), (3, 30 * 10**9), (2, -2 * 10**9), (2, 2 * 10**9)]),
+        "multipart": rng.random() < 0.2,  # sim:// objects are fetched in parts, each appended with its own open()
         "cache_dir_link": rng.random() < 0.07,  # the cache directory is a symbolic link to a directory elsewhere
         "http_no_length": rng.random() < 0.3,  # ... and does it stream without announcing a Content-Length?
     }
